@@ -1,7 +1,7 @@
 (* Proofs/InlinesTotal4Leaves.v — C01, fourth wave: the inline phase of a whole document (Model/Parse.v inline_phase:
    run_leaves over the leaves of the block tree, the reference budget threaded from 0) is total as soon as every leaf
    the block phase hands over meets the premises of inlines_total (leaf_ok: after the right-trim run_inlines_gen does
-   itself - NUL-free, valid UTF-8, first line not blank, line endings covered by the leaf's line offsets).
+   itself - empty, or NUL-free, valid UTF-8, first line not blank, line endings covered by the leaf's line offsets).
    The budget: parse_inlines leaves ref_size <= max_ref_size (RInv of the final state).
    For a document without NUL the NUL clause follows from Proofs/InertParseContent.parse_blocks_leaf_contents.
    That the block phase establishes the other three clauses is NOT proved.  No axioms. *)
@@ -33,17 +33,27 @@ Proof.
   destruct (B s E) as [(_ & _ & R) _]. exact R.
 Qed.
 
+(* an empty content (an ATX heading without text has content [] and NO line offsets: the premise on the line offsets
+   is false of it) is parsed at once *)
+Lemma parse_inlines_empty memo o u lo sl refmap maxref rs0 :
+  parse_inlines memo o u [] lo sl refmap maxref rs0 = Ok ([], rs0).
+Proof. reflexivity. Qed.
+
 Definition leaf_ok (i : binfo) : Prop :=
   let c := rtrim_slice (bi_content i) in
-  has_nul c = false /\ Spec.EscapeSpec.utf8_valid c = true /\ first_line_not_blank c = true
-  /\ line_endings c < List.length (bi_lo i).
+  c = [] \/
+  (has_nul c = false /\ Spec.EscapeSpec.utf8_valid c = true /\ first_line_not_blank c = true
+   /\ line_endings c < List.length (bi_lo i)).
 
 Lemma run_leaves_total io u refmap maxref : forall l rs,
   (rs <= maxref)%N -> (forall p i, In (p, i) l -> leaf_ok i) ->
   exists tbl, run_leaves io u refmap maxref l rs = Ok tbl.
 Proof.
   induction l as [|[p i] r IH]; intros rs Hr Hl; cbn [run_leaves]; [eexists; reflexivity|].
-  destruct (Hl p i (or_introl eq_refl)) as (A & B & C & D).
+  destruct (Hl p i (or_introl eq_refl)) as [A0|(A & B & C & D)].
+  { unfold run_inlines_gen. cbv zeta. rewrite A0. cbn [has_nul existsb]. rewrite parse_inlines_empty. cbn [bind fst snd].
+    destruct (IH rs Hr) as [tbl Et]; [intros q j Hq; apply (Hl q j); right; exact Hq|].
+    rewrite Et. cbn [bind]. eexists. reflexivity. }
   unfold run_inlines_gen. cbv zeta. rewrite A.
   assert (line_endings (rtrim_slice (bi_content i)) < List.length (map N.of_nat (bi_lo i))) as D' by (rewrite map_length; exact D).
   destruct (inlines_total_utf8 true io u (rtrim_slice (bi_content i)) (map N.of_nat (bi_lo i)) (N.of_nat (bi_sl i))
